@@ -20,25 +20,30 @@ from ..render import LAYOUTS, TRAITS, applicable, render
 from ..tlaval import dump_chunks, parse_state
 
 PROP = "C01"
-ALLV = '{"plain", "prefix", "multi", "nextbrace", "bracegroup"}'
+ALLV = '{"plain", "prefix", "multi", "nextbrace", "bracegroup", "arrow", "throws", "lineabove"}'
+ALLS = '{"plain", "strdelim", "trailing", "inline"}'
+ALLC = '{"if", "loop", "try"}'
+ALLK = '{"F","K","C","E","A","X","S","M","B","R"}'
 CONFIGS = {
     "quick": [
-        dict(name="breadth", MaxItems=5, MaxDepth=3, Reps="{1, 14}", FVariants=ALLV, SVariants='{"plain", "strdelim"}', Allowed='{"F","K","C","E","A","X","S","M","B","R"}', layouts=[0]),
-        dict(name="depth", MaxItems=9, MaxDepth=4, Reps="{1}", FVariants='{"plain"}', SVariants='{"plain"}', Allowed='{"F","X","S"}', layouts=[0]),
-        dict(name="mixed", MaxItems=6, MaxDepth=3, Reps="{2}", FVariants='{"plain", "prefix"}', SVariants='{"plain"}', Allowed='{"F","K","C","X","S","R"}', layouts=[1]),
-        dict(name="thresholds", MaxItems=4, MaxDepth=2, Reps="{1, 13, 14, 15, 16, 28, 29, 30, 31, 58, 59, 60, 61, 75}", FVariants='{"plain"}', SVariants='{"plain"}', Allowed='{"F","X","S"}', layouts=[0]),
+        dict(name="headers", MaxItems=5, MaxDepth=3, Reps="{1, 14}", FVariants=ALLV, SVariants='{"plain"}', CVariants='{"if"}', Allowed=ALLK, layouts=[0]),
+        dict(name="statements", MaxItems=5, MaxDepth=3, Reps="{1}", FVariants='{"plain"}', SVariants=ALLS, CVariants=ALLC, Allowed=ALLK, layouts=[1]),
+        dict(name="depth", MaxItems=9, MaxDepth=4, Reps="{1}", FVariants='{"plain"}', SVariants='{"plain"}', CVariants='{"if"}', Allowed='{"F","X","S"}', layouts=[0]),
+        dict(name="mixed", MaxItems=6, MaxDepth=3, Reps="{2}", FVariants='{"plain", "arrow", "lineabove"}', SVariants='{"plain"}', CVariants='{"try"}', Allowed='{"F","K","C","E","X","S","R"}', layouts=[2]),
+        dict(name="thresholds", MaxItems=4, MaxDepth=2, Reps="{1, 13, 14, 15, 16, 28, 29, 30, 31, 58, 59, 60, 61, 75}", FVariants='{"plain"}', SVariants='{"plain"}', CVariants='{"if"}', Allowed='{"F","X","S"}', layouts=[0]),
     ],
     "thorough": [
-        dict(name="breadth", MaxItems=6, MaxDepth=3, Reps="{1, 14}", FVariants=ALLV, SVariants='{"plain", "strdelim"}', Allowed='{"F","K","C","E","A","X","S","M","B","R"}', layouts=[0, 1]),
-        dict(name="depth", MaxItems=11, MaxDepth=5, Reps="{1}", FVariants='{"plain"}', SVariants='{"plain"}', Allowed='{"F","X","S"}', layouts=[0, 2]),
-        dict(name="mixed", MaxItems=7, MaxDepth=3, Reps="{2}", FVariants='{"plain", "prefix"}', SVariants='{"plain"}', Allowed='{"F","K","C","X","S","R"}', layouts=[1, 2]),
-        dict(name="thresholds", MaxItems=5, MaxDepth=2, Reps="{1, 2, 13, 14, 15, 16, 28, 29, 30, 31, 58, 59, 60, 61, 75}", FVariants='{"plain", "multi"}', SVariants='{"plain"}', Allowed='{"F","X","S"}', layouts=[0]),
+        dict(name="headers", MaxItems=6, MaxDepth=3, Reps="{1, 14}", FVariants=ALLV, SVariants='{"plain"}', CVariants='{"if"}', Allowed=ALLK, layouts=[0, 1]),
+        dict(name="statements", MaxItems=6, MaxDepth=3, Reps="{1}", FVariants='{"plain", "prefix"}', SVariants=ALLS, CVariants=ALLC, Allowed=ALLK, layouts=[1, 2]),
+        dict(name="depth", MaxItems=11, MaxDepth=5, Reps="{1}", FVariants='{"plain"}', SVariants='{"plain"}', CVariants='{"if"}', Allowed='{"F","X","S"}', layouts=[0, 2]),
+        dict(name="mixed", MaxItems=7, MaxDepth=3, Reps="{2}", FVariants='{"plain", "arrow", "lineabove", "prefix"}', SVariants='{"plain"}', CVariants='{"try", "loop"}', Allowed='{"F","K","C","E","X","S","R"}', layouts=[1, 2]),
+        dict(name="thresholds", MaxItems=5, MaxDepth=2, Reps="{1, 2, 13, 14, 15, 16, 28, 29, 30, 31, 58, 59, 60, 61, 75}", FVariants='{"plain", "multi"}', SVariants='{"plain"}', CVariants='{"if"}', Allowed='{"F","X","S"}', layouts=[0]),
     ],
 }
 
 
 def show(prog) -> str:
-    return " ".join((it["k"] + (":" + it["v"] if it["k"] == "F" and it["v"] != "plain" else "") + (("*" if it["v"] == "strdelim" else "") + str(it["n"]) if it["k"] == "S" else "")) for it in prog)
+    return " ".join((it["k"] + (":" + it["v"] if it["k"] in "FCE" and it["v"] not in ("plain", "if") else "") + (({"strdelim": "*", "trailing": "~", "inline": "^"}.get(it["v"], "")) + str(it["n"]) if it["k"] == "S" else "")) for it in prog)
 
 
 def expected_for(prog, exp, lang, layout):
@@ -209,7 +214,7 @@ def run(tier: str) -> int:
     cover = {}
     scope_texts = []
     for cfg in CONFIGS[tier]:
-        consts = {k: cfg[k] for k in ("MaxItems", "MaxDepth", "Reps", "FVariants", "SVariants", "Allowed")}
+        consts = {k: cfg[k] for k in ("MaxItems", "MaxDepth", "Reps", "FVariants", "SVariants", "CVariants", "Allowed")}
         m = tlc.run("Program", tlc.cfg(consts, spec="Spec", invariants=["Sane", "Balanced"]), wd, dump=True, cfgname=f"Program_{cfg['name']}.cfg")
         if m.violated:
             raise MachineryError(f"oracle sanity invariant violated in Program.tla ({cfg['name']}): {m.violated}")
